@@ -237,6 +237,32 @@ def rule_quotation(rep: Report, idx: SourceIndex) -> None:
 		r.check(order_ok, 'span-order', (RENDER, c_.lineno), f'Quotation receives {[unparse(e)[:40] for e in sp.elts]}; it reads them as (begin line, begin column, end line, end column)', unparse(sp)[:160])
 		r.check(len(consts) == 1, 'shift-uniform', (RENDER, c_.lineno), f'the four span components are shifted by different constants {sorted(consts)}: lark positions are 1-based in every component, so lines and columns must all be shifted alike or the carets sit beside the node\'s text', unparse(sp)[:160])
 		r.check(consts == {-1}, 'shift-minus-one', (RENDER, c_.lineno), f'lark positions are 1-based, the quotation indexes lines and columns from 0: the shift must be -1, found {sorted(consts)}', unparse(sp)[:160])
+	# every guard on the way to Quotation(...) must let the FIRST line through: the components are 1-based before the shift, so a test written for the
+	# shifted value (`span[0] <= 0: no position`) silently drops every node that begins on line 1
+	from vlib.match import atoms as atoms_of, expand_use
+	raw = bq.node
+	for c_ in [c2 for c2 in nodes(raw, ast.Call) if unparse(c2.func).endswith('Quotation') and len(c2.args) == 2]:
+		for a, pol in atoms_of(raw, c_):
+			e = expand_use(raw, a, depth=4)
+			if not (isinstance(e, ast.Compare) and len(e.ops) == 1):
+				continue
+			def elem(x: ast.AST) -> ast.AST:
+				# (t0, t1, t2, t3)[k] -> tk
+				if isinstance(x, ast.Subscript) and isinstance(x.value, ast.Tuple) and isinstance(x.slice, ast.Constant) and isinstance(x.slice.value, int) and -len(x.value.elts) <= x.slice.value < len(x.value.elts):
+					return x.value.elts[x.slice.value]
+				return x
+			lt, lc = linear(elem(e.left))
+			rt, rc = linear(elem(e.comparators[0]))
+			terms = {k: v for k, v in {**lt, **{k: lt.get(k, 0) - v for k, v in rt.items()}}.items() if v != 0}
+			if len(terms) != 1 or list(terms.values()) != [1] or not next(iter(terms)).endswith("['begin'][0]"):
+				continue
+			# condition: L + (lc - rc) <op> 0 with L the 1-based begin line; evaluate for L = 1
+			val = 1 + lc - rc
+			op = e.ops[0]
+			truth = {ast.Lt: val < 0, ast.LtE: val <= 0, ast.Gt: val > 0, ast.GtE: val >= 0, ast.Eq: val == 0, ast.NotEq: val != 0}.get(type(op))
+			if truth is None:
+				continue
+			r.check(truth == pol, 'first-line-is-quoted', (RENDER, a.lineno), f'Quotation(...) is reached only under `{unparse(a)}` being {pol}; with the 1-based begin line L the test reads `{unparse(e)[:90]}`, which is {truth} for L = 1: an error reported for a node that begins on the first line of the file gets no quotation at all (the shifted value of "no position" is -1, 0 is line 1)', unparse(a))
 	qi = q.method('__init__')
 	ix = FI(qi)
 	sm = [p_ for p_ in qi.params() if p_ != 'self'][1]
